@@ -17,6 +17,7 @@ type G struct {
 	ascii  bool // strings of 7-bit bytes only (for %q renderings)
 	domain bool // restrict arguments to the C01 domain
 	big    bool // allow 16k/64k strings
+	nomagic bool // no dictionary strings
 }
 
 func newG(seed int64) *G { return &G{r: rand.New(rand.NewSource(seed)), big: true} }
@@ -76,8 +77,41 @@ func (g *G) bytesN(n int) []byte {
 	}
 	return b
 }
-func (g *G) bytes() []byte { return g.bytesN(g.length()) }
+// magic holds strings that a codec, a broker or a "helpful" setter might treat
+// specially: shared-subscription and system prefixes, wildcards, separators,
+// protocol names, substitution patterns, a byte order mark, format verbs.
+var magic = []string{"$share/", "$share/g", "$share/g/t", "$share", "$share//", "$share/g/", "$SYS/x", "$queue/a",
+	"MQTT", "MQIsdp", "mqtt", "MQTT\x00", "%u", "%c", "a/%u/%c", "%s", "%d%n", "\xef\xbb\xbf", "\xef\xbb\xbfbob",
+	"+", "#", "a/+/b", "a/#", "/", "//", "a/", "\x00", "\xc3\xa9", "\xe6\x97\xa5\xe6\x9c\xac", "\xff\xfe", "null", "nil",
+	"true", "0", "-1", "{}", "\n", " ", "a b", "../", "*", "\xed\xa0\x80", "\xf0\x9f\x98\x80"}
+
+func isASCII(b []byte) bool {
+	for _, c := range b {
+		if c >= 128 {
+			return false
+		}
+	}
+	return true
+}
+
+func (g *G) bytes() []byte {
+	if !g.nomagic && g.chance(9) {
+		m := []byte(magic[g.pick(len(magic))])
+		if g.chance(30) {
+			m = append(m, g.bytesN(1+g.pick(6))...)
+		}
+		if !g.ascii || isASCII(m) {
+			return m
+		}
+	}
+	return g.bytesN(g.length())
+}
 func (g *G) nonEmpty() []byte {
+	if !g.nomagic && g.chance(9) {
+		if m := []byte(magic[g.pick(len(magic))]); !g.ascii || isASCII(m) {
+			return m
+		}
+	}
 	n := g.length()
 	if n == 0 {
 		n = 1 + g.pick(5)
@@ -86,7 +120,7 @@ func (g *G) nonEmpty() []byte {
 }
 
 func (g *G) u8() uint64 {
-	switch g.pick(6) {
+	switch g.pick(7) {
 	case 0:
 		return 0
 	case 1:
@@ -95,6 +129,8 @@ func (g *G) u8() uint64 {
 		return 255
 	case 3:
 		return 128 + uint64(g.pick(2))
+	case 4:
+		return uint64(2 + g.pick(6)) // small values: protocol levels, QoS-like codes
 	}
 	return uint64(g.pick(256))
 }
